@@ -6,6 +6,7 @@
 //! trusted: HeaderCache::look_up returns a well-formed header of the requested hash (cache invariant, assumed); the Poll implementation is instantiated (R5) by a stub Poller whose look_up_previous_header returns a header that passed check_builds_on against `header` (that is what ChainPoller does)
 //! trusted: listener part: ChainNotifier is instantiated (R5) as Notifier { header_cache, chain_listener: &mut Listener } (the real field is a shared reference to a listener with interior state); the Listener stub carries the ghost field `tip` and the trace preconditions; HeaderCache::{blocks_disconnected, block_connected} external_body (no effect on the listener); Poller::fetch_block returns a block whose hash is the requested header's (ChainPoller validates it); `drain(..).rev()` rewritten into pop() (R6); find_difference_from_header restated as an external_body callee contract in the Notifier impl (it is verified, same text, in the ChainNotifier impl above)
 //! trusted: poller part: `fn f(..) -> impl Future<Output = T> + Send + 'a { async move { B } }` is written `async fn f(..) -> T { B }` (R5, same body); ChainPoller<B, T> is instantiated with a stub block source whose get_best_block / get_header return anything (any source); Header::validate_pow / block_hash are external_body returning the uninterpreted hash_of(header); `.map_err(BlockSourceError::persistent)` gets an explicit closure (R8); Validate::T is spelled out
+//! trusted: R15 (deep slices): init::synchronize_listeners: the test that decides whether a fetched block is handed to a listener, the batch size / truncation pair of the fetch loop (with the function-local const MAX_BLOCKS_AT_ONCE of the production configuration), and the test that keeps the longest list of blocks to connect, verbatim as functions; fetching (futures), the header cache and the per-listener disconnection (ChainNotifier, above) are dropped and not claimed here
 //! assume: block sources never report the height u32::MAX (check_builds_on computes previous_header.height + 1 in u32)
 //! assume: the served block tree is consistent: one parent and one height per block hash (parent_of/height_of uninterpreted)
 //! assume: termination of the walk is not claimed (needs a genesis assumption): partial correctness only
@@ -457,6 +458,54 @@ impl ChainPoller {
     header.check_builds_on(&previous_header, self.network)?;
 //@with
     
+//@end
+}
+// ---- init::synchronize_listeners: start-up synchronisation of several listeners ---------------------------
+pub mod start_up {
+use vstd::prelude::*;
+pub struct Hdr { pub height: u32 }
+//@extract lightning-block-sync/src/init.rs :: fn synchronize_listeners
+//@slice R15
+    for (height, block_data) in fetched_blocks.iter().flatten() { if $c:cond { match &**block_data {
+//@with
+    fn listener_is_told_of_block(height: &u32, listener_height: &u32) -> bool { $c }
+//@ret r
+//@ensures P C20 at-start-up-a-listener-is-connected-exactly-the-fetched-blocks-above-its-own-fork-point
+    r == (*height > *listener_height),
+//@mutant fork_point_block_connected_again
+    if *height > *listener_height {
+//@with
+    if *height >= *listener_height {
+//@end
+//@extract lightning-block-sync/src/init.rs :: fn synchronize_listeners
+//@capture R15
+    const MAX_BLOCKS_AT_ONCE: usize = $max:seq;
+//@capture R15
+    for header in most_connected_blocks.iter().rev().take($k:seq) {
+//@slice R15
+    most_connected_blocks .truncate($n:seq);
+//@with
+    fn batch_size_and_remaining(most_connected_blocks: &Vec<Hdr>) -> (usize, usize) {
+        const MAX_BLOCKS_AT_ONCE: usize = $max;
+        ($k, $n)
+    }
+//@ret r
+//@ensures P C20 the-blocks-taken-off-the-to-do-list-after-a-batch-are-exactly-the-blocks-the-batch-fetched-so-none-is-skipped-or-repeated
+    r.1 + (if most_connected_blocks@.len() < r.0 { most_connected_blocks@.len() as int } else { r.0 as int }) == most_connected_blocks@.len(),
+    r.0 >= 1,
+//@mutant one_block_of_every_batch_kept_for_the_next
+    most_connected_blocks.len().saturating_sub(MAX_BLOCKS_AT_ONCE)
+//@with
+    most_connected_blocks.len().saturating_sub(MAX_BLOCKS_AT_ONCE - 1)
+//@end
+//@extract lightning-block-sync/src/init.rs :: fn synchronize_listeners
+//@slice R15
+    if $c:cond { most_connected_blocks = connected_blocks; }
+//@with
+    fn longer_list_replaces_the_kept_one(connected_blocks: &Vec<Hdr>, most_connected_blocks: &Vec<Hdr>) -> bool { $c }
+//@ret r
+//@ensures P C20 the-list-of-blocks-to-fetch-is-the-longest-any-listener-needs
+    r == (connected_blocks@.len() > most_connected_blocks@.len()),
 //@end
 }
 }
